@@ -164,8 +164,8 @@ func ruleProcessBlockProvenance(r *Run, rule string) {
 func ruleNoRawCoinArith(r *Run, rule string) {
 	pkgs := map[string]bool{"coin": true, "transaction": true, "visor": true, "visor/blockdb": true, "util/fee": true, "visor/historydb": true}
 	reviewed := map[string]string{
-		"coin.UxOut.CoinHours|($0.Body.Coins / 1000000)":  "division cannot overflow",
-		"coin.UxOut.CoinHours|($0.Body.Coins % 1000000)":  "remainder cannot overflow",
+		"coin.UxOut.CoinHours|($0.Body.Coins / 1000000)": "division cannot overflow",
+		"coin.UxOut.CoinHours|($0.Body.Coins % 1000000)": "remainder cannot overflow",
 	}
 	_ = reviewed
 	n := 0
